@@ -1440,7 +1440,18 @@ impl KotoVm {
                         }
                     }
                 }
-                unexpected => return unexpected_type("Iterator", &unexpected),
+                unexpected => {
+                    // The iterable hasn't been turned into an iterator yet,
+                    // e.g. `@iterator` returned a list or a map rather than an iterator.
+                    let iterator = self.make_iterator(unexpected)?;
+                    self.set_register(iterable_register, iterator.into());
+                    return self.run_iterator_next(
+                        result_register,
+                        iterable_register,
+                        jump_offset,
+                        output_is_temporary,
+                    );
+                }
             }
         };
 
